@@ -909,7 +909,12 @@ func (x *Engine) builtin(fr *Frame, st *State, b *ssa.Builtin, cc *ssa.CallCommo
 			return Val{T: x.zero(rt), Typ: rt}
 		}
 		pf := x.panicking[len(x.panicking)-1]
-		// recover() only stops the panic when called directly by the deferred function
+		// recover() only stops the panic when called directly by the deferred function: in a function that the
+		// deferred function calls (one frame further down) it returns nil and the panic keeps unwinding
+		if fr.parent != pf {
+			x.abstracted("recover() not called directly by a deferred function: returns nil")
+			return Val{T: x.zero(rt), Typ: rt}
+		}
 		already := x.get(st, pf.recKey)
 		st.h[pf.recKey] = "true"
 		pv := x.freshVal("panicval", rt, st)
